@@ -338,29 +338,6 @@ func LongSpecs(seed int64, n int) []Spec {
 // ---------------------------------------------------------------------------------------------
 // write partitions
 
-// AllPartitions calls f with every composition of n (2^(n-1) of them; one empty partition for 0).
-// The slice passed to f is reused.
-func AllPartitions(n int, f func(parts []int)) {
-	if n == 0 {
-		f(nil)
-		return
-	}
-	parts := make([]int, 0, n)
-	for mask := uint64(0); mask < 1<<(n-1); mask++ {
-		parts = parts[:0]
-		run := 1
-		for i := 0; i < n-1; i++ {
-			if mask>>i&1 == 1 { // cut after byte i
-				parts = append(parts, run)
-				run = 1
-			} else {
-				run++
-			}
-		}
-		f(append(parts, run))
-	}
-}
-
 // CutPartitions calls f with every partition of n bytes whose boundaries are a subset of cuts
 // (positions 1..n-1, ascending): 2^len(cuts) partitions. The slice passed to f is reused.
 func CutPartitions(n int, cuts []int, f func(parts []int)) {
